@@ -19,7 +19,8 @@ Fan-out values/times for arbitrary process graphs and callback effects are not d
 """
 import ast
 
-from ..engine import Analysis, is_call_to, is_suspension, short, where_fn, tested, key_truth
+from ..engine import Analysis, is_call_to, is_suspension, short, where_fn, tested, \
+    key_truth, event_callees
 from ..model import AnalysisError
 from ..norm import equal_bool, equal_algebra
 from ..types import Callee
@@ -34,6 +35,311 @@ CONDITION = 'usim.py.events.Condition'
 ENV = 'usim.py.core.Environment'
 ENVSCOPE = 'usim.py.core.EnvironmentScope'
 STOP = 'usim.py.exceptions.StopSimulation'
+
+
+def _check_timeout(check, an: Analysis):
+    from .c16 import asserted
+    tinit = an.callee(TIMEOUT, '__init__')
+    params = [a.arg for a in tinit.fn.node.args.args]
+    env, delay, value = params[1], params[2], params[3]
+    want = asserted(ast.parse('%s < 0' % delay, mode='eval').body, False)
+    paths = an.paths(tinit)
+    guard_ok, n_guard, rejected = True, 0, 0
+    store_ok, sched_ok, n_normal = True, True, 0
+    for path in paths:
+        effects = [i for i, e in enumerate(path.events) if e.depth == 0 and (
+            e.kind == 'store' or (e.kind in ('call', 'enter') and (
+                event_callees(e) or (isinstance(e.node, ast.Call) and isinstance(
+                    e.node.func, ast.Attribute) and e.node.func.attr == 'schedule'))))]
+        if path.kind == 'raise' and path.outcome[1].cls == 'ext:ValueError' and not effects:
+            rejected += 1
+        if effects:
+            n_guard += 1
+            tests = [e for i, e in enumerate(path.events[:effects[0]]) if e.kind == 'test'
+                     and asserted(rules.value_expr(path, i, e.node), e['value']) == want]
+            guard_ok &= bool(tests)
+        if not path.normal:
+            continue
+        n_normal += 1
+        stores = {e['path']: rules.value_text(path, i, e['value'])
+                  for i, e in enumerate(path.events)
+                  if e.kind == 'store' and e.depth == 0 and e['value'] is not None}
+        store_ok &= stores.get('self._delay') == delay and \
+            stores.get('self._fixed_value') == value
+        handed = [rules.value_text(path, i, e.node.args[0])
+                  for i, e in enumerate(path.events)
+                  if e.kind == 'call' and e.depth == 0 and isinstance(e.node, ast.Call)
+                  and isinstance(e.node.func, ast.Attribute)
+                  and e.node.func.attr == 'schedule' and e.node.args
+                  and rules.value_text(path, i, e.node.func.value) == env]
+        sched_ok &= handed == ['self._trigger_timeout()']
+    check.instance('P', 'Timeout:negative-delay-rejected-first',
+                   guard_ok and n_guard > 0 and rejected > 0, where_fn(tinit.fn),
+                   'a negative delay raises ValueError before anything is created '
+                   '(%d constructing paths, %d rejecting paths)' % (n_guard, rejected),
+                   analysed=n_guard)
+    check.instance('P', 'Timeout:stores', store_ok and n_normal > 0, where_fn(tinit.fn),
+                   'delay and value are stored unchanged')
+    check.instance('P', 'Timeout:scheduled', sched_ok and n_normal > 0, where_fn(tinit.fn),
+                   'the timeout activity is handed to the environment, once')
+    ttrig = an.callee(TIMEOUT, '_trigger_timeout')
+    ok, n = True, 0
+    for path in an.paths(ttrig):
+        waits = [i for i, e in enumerate(path.events) if e.kind == 'susp' and e.depth == 0
+                 and e['how'] == 'await']
+        fired = [i for i, e in enumerate(path.events) if e.kind in ('call', 'enter')
+                 and e.depth == 0 and is_call_to(e, 'succeed')]
+        if path.normal:
+            n += 1
+            good = len(waits) == 1 and len(fired) == 1 and waits[0] < fired[0] and \
+                path.events[waits[0]]['exit'] == 'normal'
+            if good:
+                expr = rules.value_text(path, waits[0], path.events[waits[0]]['expr'])
+                good = equal_algebra(expr, 'time + self._delay')
+                args = path.events[fired[0]].node.args
+                good = good and len(args) == 1 and rules.value_text(
+                    path, fired[0], args[0]) == 'self._fixed_value'
+            ok &= good
+        else:
+            ok &= not fired or (bool(waits) and waits[0] < fired[0])
+    check.instance('P', 'Timeout._trigger_timeout', ok and n > 0, where_fn(ttrig.fn),
+                   'waits time + delay, then succeeds with the fixed value '
+                   '(%d normal paths)' % n, analysed=n)
+
+
+def _resume_kind(path, index, event, gen_text):
+    """'send' / 'throw' when the call resumes the process generator, else None"""
+    node = event.node
+    if event.kind != 'call' or not isinstance(node, ast.Call) or event.get('how') != 'call':
+        return None
+    func = rules.value_expr(path, index, node.func)
+    if isinstance(func, ast.Attribute) and func.attr in ('send', 'throw') and \
+            ast.unparse(func.value) == gen_text:
+        return func.attr
+    return None
+
+
+def _check_run_payload(check, an: Analysis):
+    runp = an.callee(PROCESS, '_run_payload')
+    fn = runp.fn
+    paths = an.paths(runp)
+    first_ok, resume_ok, defuse_ok, target_ok = True, True, True, True
+    atomic_ok, outcome_ok, value_ok, active_ok = True, True, True, True
+    n_resume = n_stop = n_fail = 0
+    bad = {}
+
+    def flag(name, path, index):
+        bad.setdefault(name, (path, index))
+        return False
+    for path in paths:
+        events = path.events
+        waited = None      # (index of the store, name of the local holding the event)
+        finished = False
+        for index, event in enumerate(events):
+            if event.fn is not fn:
+                continue
+            if event.kind == 'store' and isinstance(event.get('value'), ast.Await) and \
+                    '_wait_interruptible' in ast.unparse(event['value']) and \
+                    isinstance(event.node, ast.Name):
+                waited = (index, event.node.id)
+                # the event waited for is the one the generator yielded last
+                call = event['value'].value
+                arg = rules.value_expr(path, index, call.args[0]) if isinstance(
+                    call, ast.Call) and call.args else None
+                if not (isinstance(arg, ast.Call) and isinstance(
+                        rules.value_expr(path, index, arg.func), ast.Attribute)):
+                    inner = ast.unparse(arg) if arg is not None else '?'
+                    if 'send' not in inner and 'throw' not in inner:
+                        target_ok = flag('target', path, index)
+                continue
+            if finished and (is_suspension(event) or _resume_kind(
+                    path, index, event, 'self._generator')):
+                outcome_ok = flag('outcome', path, index)
+            kind = _resume_kind(path, index, event, 'self._generator')
+            if kind is None:
+                continue
+            n_resume += 1
+            node = event.node
+            keep = (waited[1],) if waited else ()
+            args = [rules.value_text(path, index, a, keep=keep) for a in node.args]
+            # the process is the active one while its generator runs
+            before = [e for e in events[:index] if e.kind == 'store' and e.fn is fn
+                      and (e['path'] or '').endswith('.active_process')]
+            if not before or rules.value_text(
+                    path, events.index(before[-1]), before[-1]['value']) != 'self':
+                active_ok = flag('active', path, index)
+            if waited is None:
+                if kind != 'send' or args != ['None']:
+                    first_ok = flag('first', path, index)
+            else:
+                since = waited[0]
+                atoms = rules.path_atoms(path, since, index, keep=keep)
+                good = atoms.get(('truth', '%s.ok' % waited[1]))
+                if good is True:
+                    ok = kind == 'send' and args == ['%s.value' % waited[1]]
+                elif good is False:
+                    ok = kind == 'throw' and args == ['%s.value' % waited[1]]
+                    defused = any(e.kind == 'store' and e.fn is fn and
+                                  e['path'] == '%s.defused' % waited[1] and
+                                  isinstance(e['value'], ast.Constant) and
+                                  e['value'].value is True for e in events[since:index])
+                    if not defused:
+                        defuse_ok = flag('defuse', path, index)
+                else:
+                    ok = False
+                if not ok:
+                    resume_ok = flag('resume', path, index)
+                if any(is_suspension(e) for e in events[since + 1:index]):
+                    atomic_ok = flag('atomic', path, index)
+            exit_cls = event['exit']
+            rest = events[index + 1:]
+            if exit_cls == 'normal':
+                # what the generator yields becomes the target and the next event to wait for
+                stored = [e for e in rest[:4] if e.kind == 'store' and e.fn is fn
+                          and e['value'] is node]
+                paths_ = {e['path'] for e in stored}
+                if 'self.target' not in paths_ or not any(
+                        isinstance(e.node, ast.Name) for e in stored):
+                    target_ok = flag('target', path, index)
+                after = [e for e in rest if e.kind == 'store' and e.fn is fn
+                         and (e['path'] or '').endswith('.active_process')]
+                susp = [k for k, e in enumerate(rest) if is_suspension(e)]
+                if susp and not (after and rest.index(after[0]) < susp[0] and isinstance(
+                        after[0]['value'], ast.Constant) and after[0]['value'].value is None):
+                    active_ok = flag('active', path, index)
+                continue
+            finished = True
+            handlers = [e for e in rest if e.kind == 'handler' and e.fn is fn]
+            if exit_cls == 'ext:StopIteration':
+                n_stop += 1
+                fired = [(k, e) for k, e in enumerate(rest) if e.kind in ('call', 'enter')
+                         and e.fn is fn and is_call_to(e, 'succeed')]
+                failed = [e for e in rest if is_call_to(e, 'fail') and e.fn is fn]
+                if len(fired) != 1 or failed or not handlers:
+                    outcome_ok = flag('outcome', path, index)
+                    continue
+                name = handlers[0].node.name
+                pos = index + 1 + fired[0][0]
+                atoms = rules.path_atoms(path, index, pos)
+                has_args = atoms.get(('truth', '%s.args' % name))
+                arg = fired[0][1].node.args
+                text = rules.value_text(path, pos, arg[0]) if len(arg) == 1 else (
+                    'None' if not arg else '?')
+                if has_args is True:
+                    value_ok &= text == '%s.args[0]' % name or flag('value', path, pos)
+                elif has_args is False:
+                    value_ok &= text == 'None' or flag('value', path, pos)
+                else:
+                    value_ok = flag('value', path, pos)
+            else:
+                n_fail += 1
+                fired = [(k, e) for k, e in enumerate(rest) if e.kind in ('call', 'enter')
+                         and e.fn is fn and is_call_to(e, 'fail')]
+                done = [e for e in rest if is_call_to(e, 'succeed') and e.fn is fn]
+                if len(fired) != 1 or done or not handlers or handlers[0].node.name is None:
+                    outcome_ok = flag('outcome', path, index)
+                    continue
+                pos = index + 1 + fired[0][0]
+                arg = fired[0][1].node.args
+                if len(arg) != 1 or rules.value_text(path, pos, arg[0]) != \
+                        handlers[0].node.name:
+                    outcome_ok = flag('outcome', path, index)
+
+    def report(name, verdict, text, count):
+        where = bad.get(name)
+        check.instance('P', 'Process._run_payload:%s' % name, verdict and count > 0,
+                       where_fn(fn), text + ' (%d sites on paths)' % count,
+                       path=rules.path_lines(*where) if where else None, analysed=count)
+    report('first', first_ok, 'the generator is started with send(None)', n_resume)
+    report('resume', resume_ok and defuse_ok, 'resumed with the value of a good event; a '
+           'failed one is defused and thrown into the generator', n_resume)
+    report('atomic', atomic_ok, 'nothing can run between the wait and the resumption',
+           n_resume)
+    report('target', target_ok, 'what the generator yields becomes `target` and is waited '
+           'for next', n_resume)
+    report('active', active_ok, '`env.active_process` is the process while its generator '
+           'runs and None afterwards', n_resume)
+    report('outcome', outcome_ok, 'StopIteration -> succeed, any other exception -> '
+           'fail(err), and the process ends', n_stop + n_fail)
+    report('return-value', value_ok, 'the generator\'s return value (None without one) is '
+           'the event\'s value', n_stop)
+
+
+def _check_condition_events(check, an: Analysis):
+    chk = an.callee(CONDITION, '_check_events')
+    fn = chk.fn
+    paths = an.paths(chk, loop_bound=1)
+    wait_ok, fail_ok, value_ok = True, True, True
+    n_wait = n_fail = n_succeed = 0
+    bad = {}
+
+    def flag(name, path, index):
+        bad.setdefault(name, (path, index))
+        return False
+    # the local list of members that have not fired yet: filled by append in the first loop
+    unobserved = None
+    for node in ast.walk(fn.node):
+        if isinstance(node, ast.Call) and isinstance(node.func, ast.Attribute) and \
+                node.func.attr == 'remove' and isinstance(node.func.value, ast.Name):
+            unobserved = node.func.value.id
+    for path in paths:
+        events = path.events
+        for index, event in enumerate(events):
+            if event.kind == 'susp' and event['how'] == 'await' and event.depth == 0:
+                n_wait += 1
+                expr = rules.value_expr(path, index, event['expr'],
+                                        keep=(unobserved,) if unobserved else ())
+                good = isinstance(expr, ast.Call) and ast.unparse(expr.func) == 'AnyFlag' \
+                    and len(expr.args) == 1 and isinstance(expr.args[0], ast.Starred) and \
+                    not expr.keywords
+                if good:
+                    inner = expr.args[0].value
+                    good = isinstance(inner, (ast.GeneratorExp, ast.ListComp)) and \
+                        len(inner.generators) == 1 and not inner.generators[0].ifs and \
+                        ast.unparse(inner.generators[0].iter) == unobserved and \
+                        ast.unparse(inner.elt) == '%s.__usimpy_flag__' % ast.unparse(
+                            inner.generators[0].target)
+                if not good:
+                    wait_ok = flag('waits-any-unobserved', path, index)
+            elif event.kind in ('call', 'enter') and is_call_to(event, 'fail') and \
+                    event.kind != 'leave':
+                # a failed member: the latest loop variable, fired but not ok
+                n_fail += 1
+                loops = [e for e in events[:index] if e.kind == 'iter-next' and e.depth == 0]
+                member = ast.unparse(loops[-1].node.target) if loops else '?'
+                start = events.index(loops[-1]) if loops else 0
+                atoms = rules.path_atoms(path, start, index)
+                arg = event.node.args
+                text = rules.value_text(path, index, arg[0]) if len(arg) == 1 else '?'
+                defused = any(e.kind == 'store' and e['path'] == '%s.defused' % member
+                              and isinstance(e['value'], ast.Constant)
+                              and e['value'].value is True for e in events[start:index])
+                ended = not any(is_suspension(e) or is_call_to(e, 'succeed')
+                                for e in events[index + 1:])
+                good = text == '%s.value' % member and defused and ended and \
+                    atoms.get(('truth', '%s.__usimpy_flag__' % member)) is True and \
+                    atoms.get(('truth', '%s.ok' % member)) is False
+                if not good:
+                    fail_ok = flag('failure', path, index)
+            elif event.kind in ('call', 'enter') and is_call_to(event, 'succeed') and \
+                    event.depth == 0:
+                n_succeed += 1
+                arg = event.node.args
+                text = rules.value_text(path, index, arg[0]) if len(arg) == 1 else '?'
+                if text != 'ConditionValue(*self._flatten_values(self._events))':
+                    value_ok = flag('value', path, index)
+    for name, verdict, count, text in (
+            ('waits-any-unobserved', wait_ok, n_wait,
+             'waits until any not yet observed member fires'),
+            ('value', value_ok, n_succeed,
+             'fires with exactly the members that fired by then (flattened)'),
+            ('failure', fail_ok, n_fail,
+             'a fired member that failed is defused and fails the condition with its '
+             'exception, which ends the evaluation')):
+        where = bad.get(name)
+        check.instance('P', 'Condition._check_events:%s' % name, verdict and count > 0,
+                       where_fn(fn), text + ' (%d sites on paths)' % count,
+                       path=rules.path_lines(*where) if where else None, analysed=count)
 
 
 def run(check, an: Analysis):
@@ -88,18 +394,21 @@ def run(check, an: Analysis):
                 ok &= len(stored) == 1 and len(trig) == 1 and stored[0] < trig[0]
         check.instance('O', 'Event.%s:store-then-trigger' % name, ok, where_fn(callee.fn),
                        'the value is stored, then the event is triggered, exactly once')
-    succeed = an.method(EVENT, 'succeed')
-    stores = [n for n in ast.walk(succeed.node) if isinstance(n, ast.Assign)
-              and ast.unparse(n.targets[0]) == 'self._value']
-    check.instance('O', 'Event.succeed:value', len(stores) == 1 and ast.unparse(
-        stores[0].value) == '(%s, None)' % succeed.node.args.args[1].arg, where_fn(succeed),
-        '(value, None)')
-    fail = an.method(EVENT, 'fail')
-    stores = [n for n in ast.walk(fail.node) if isinstance(n, ast.Assign)
-              and ast.unparse(n.targets[0]) == 'self._value']
-    check.instance('O', 'Event.fail:value', len(stores) == 1 and ast.unparse(
-        stores[0].value) == '(None, %s)' % fail.node.args.args[1].arg, where_fn(fail),
-        '(None, exception)')
+    for name, want in (('succeed', '({0}, None)'), ('fail', '(None, {0})'),
+                       ('trigger', '{0}._value')):
+        callee = an.callee(EVENT, name)
+        param = callee.fn.node.args.args[1].arg
+        ok, n = True, 0
+        for path in an.paths(callee):
+            for index, event in enumerate(path.events):
+                if event.kind == 'store' and event['path'] == 'self._value' and \
+                        event.depth == 0:
+                    n += 1
+                    ok &= event['value'] is not None and rules.value_text(
+                        path, index, event['value']) == want.format(param)
+        check.instance('O', 'Event.%s:value' % name, ok and n > 0, where_fn(callee.fn),
+                       'stores %s (%d stores on paths)' % (want.format(param), n),
+                       analysed=n)
     # ---- T ------------------------------------------------------------------
     trig = an.callee(EVENT, '_trigger')
     check.instance('T', 'Event._trigger:sync', trig.fn.kind == 'sync', where_fn(trig.fn),
@@ -118,12 +427,14 @@ def run(check, an: Analysis):
         check.instance('T', 'Event._trigger:complete', ok, where_fn(trig.fn),
                        'flag raised, waiters triggered, callback task scheduled',
                        path=rules.path_lines(path))
-    sched = an.method(EVENT, '__usimpy_schedule__')
-    sbody = [ast.unparse(stmt) for stmt in sched.node.body
-             if not (isinstance(stmt, ast.Expr) and isinstance(stmt.value, ast.Constant))]
-    check.instance('T', 'Event.__usimpy_schedule__', sbody == [
-        'await self._invoke_callbacks()'], where_fn(sched),
-        'the scheduled task invokes the callbacks')
+    sched = an.callee(EVENT, '__usimpy_schedule__')
+    spaths = [p for p in an.paths(sched) if p.normal]
+    ok = bool(spaths) and all(
+        sum(1 for e in p.events if e.kind in ('susp', 'enter') and
+            is_call_to(e, '_invoke_callbacks')) == 1 for p in spaths)
+    check.instance('T', 'Event.__usimpy_schedule__', ok, where_fn(sched.fn),
+                   'the scheduled task invokes the callbacks, once (%d normal paths)'
+                   % len(spaths), analysed=len(spaths))
     inv = an.callee(EVENT, '_invoke_callbacks')
     for path in an.paths(inv):
         swap = [i for i, e in enumerate(path.events) if e.kind == 'store'
@@ -137,104 +448,99 @@ def run(check, an: Analysis):
             check.instance('T', '_invoke_callbacks:swap-before-calls', ok, where_fn(inv.fn),
                            '`callbacks` is set to None before any callback runs',
                            path=rules.path_lines(path))
-    swap_stmt = [n for n in ast.walk(inv.fn.node) if isinstance(n, ast.Assign)
-                 and isinstance(n.targets[0], ast.Tuple)
-                 and 'self.callbacks' in [ast.unparse(t) for t in n.targets[0].elts]]
-    ok = len(swap_stmt) == 1 and isinstance(swap_stmt[0].value, ast.Tuple) and \
-        [ast.unparse(v) for v in swap_stmt[0].value.elts] == ['self.callbacks', 'None']
-    loops = [n for n in ast.walk(inv.fn.node) if isinstance(n, ast.For)]
-    once = len(loops) == 1 and isinstance(loops[0].iter, ast.Name) and \
-        [ast.unparse(s) for s in loops[0].body] == ['%s(self)' % ast.unparse(loops[0].target)]
-    check.instance('T', '_invoke_callbacks:each-once', ok and once, where_fn(inv.fn),
-                   'callbacks, self.callbacks = self.callbacks, None; each callback called '
-                   'once with the event')
-    raises = [n for n in ast.walk(inv.fn.node) if isinstance(n, ast.Raise)]
-    guard = [n for n in ast.walk(inv.fn.node) if isinstance(n, ast.If)
-             and any(r in ast.walk(n) for r in raises)]
-    ok = len(raises) == 1 and len(guard) == 1 and equal_bool(
-        guard[0].test, 'exception is not None and not self.defused')
-    check.instance('T', '_invoke_callbacks:undefused-failure-raised', ok, where_fn(inv.fn),
-                   'a failed event that nobody defused ends the run with its exception')
+    once, n_iter, bad = True, 0, None
+    for path in an.paths(inv):
+        swaps = [i for i, e in enumerate(path.events) if e.kind == 'store'
+                 and e.depth == 0 and e['path'] == 'self.callbacks']
+        segment = None
+        for index, event in enumerate(path.events):
+            if event.depth != 0:
+                continue
+            if event.kind in ('iter-next', 'iter-end') and isinstance(event.node, ast.For):
+                if segment is not None and segment != 1:
+                    once, bad = False, bad or (path, index)
+                segment = 0 if event.kind == 'iter-next' else None
+                if event.kind == 'iter-next':
+                    n_iter += 1
+                    source = rules.value_text(path, index, event.node.iter)
+                    holder = rules.reaching_store(path, index, ast.unparse(event.node.iter))
+                    # the list that is iterated was read before `callbacks` became None
+                    if source != 'self.callbacks' or holder is None or not swaps or \
+                            holder[0] > swaps[0]:
+                        once, bad = False, bad or (path, index)
+            elif event.kind == 'call' and isinstance(event.node, ast.Call) and \
+                    event.get('how') == 'call' and isinstance(event.node.func, ast.Name) and \
+                    [ast.unparse(a) for a in event.node.args] == ['self']:
+                loops = [e for e in path.events[:index] if e.kind == 'iter-next'
+                         and e.depth == 0]
+                if segment is None or not loops or \
+                        event.node.func.id != ast.unparse(loops[-1].node.target):
+                    once, bad = False, bad or (path, index)
+                else:
+                    segment += 1
+    check.instance('T', '_invoke_callbacks:each-once', once and n_iter > 0, where_fn(inv.fn),
+                   'the callbacks read before `self.callbacks = None` are each called once '
+                   'with the event (%d iterations on paths)' % n_iter,
+                   path=rules.path_lines(*bad) if bad else None, analysed=n_iter)
+    ok, n_tail, bad = True, 0, None
+    for path in an.paths(inv):
+        ends = [i for i, e in enumerate(path.events) if e.kind == 'iter-end' and e.depth == 0]
+        if not ends:
+            continue
+        last = path.events[-1] if path.events else None
+        raises_stored = path.kind == 'raise' and last is not None and last.kind == 'raise' \
+            and last.depth == 0 and isinstance(last.node, ast.Raise) and \
+            last.node.exc is not None and rules.value_text(
+                path, len(path.events) - 1, last.node.exc) == 'self._value[1]'
+        if not (path.normal or (path.kind == 'raise' and last is not None
+                                and last.kind == 'raise' and last.depth == 0)):
+            continue
+        n_tail += 1
+        atoms = rules.path_atoms(path, ends[-1])
+        failed = atoms.get(('isnone', 'self._value[1]'))
+        defused = atoms.get(('truth', 'self.defused'))
+        if path.normal:
+            good = failed is True or defused is True
+        else:
+            good = raises_stored and failed is False and defused is False
+        if not good:
+            ok, bad = False, bad or (path, len(path.events) - 1)
+    check.instance('T', '_invoke_callbacks:undefused-failure-raised', ok and n_tail >= 3,
+                   where_fn(inv.fn), 'after the callbacks: a failed event that nobody defused '
+                   'ends the run with its exception; otherwise nothing is raised '
+                   '(%d paths)' % n_tail,
+                   path=rules.path_lines(*bad) if bad else None, analysed=n_tail)
     # ---- A ------------------------------------------------------------------
     aw = an.callee(EVENT, '__await__')
+    SIGNALS_ = ('usim._core.loop.Interrupt', 'usim._primitives.task.CancelTask',
+                'usim._primitives.context.CancelScope', 'ext:GeneratorExit')
     for path in an.paths(aw):
         waited = any(e.kind == 'susp' and e['exit'] == 'normal' and any(
             c.recv == 'usim._primitives.flag.Flag' for c in e['callees'])
             for e in path.events)
+        atoms = rules.path_atoms(path)
         if path.kind == 'return':
-            ok = waited and isinstance(path.outcome[1], ast.Name)
+            ok = waited and path.outcome[1] is not None and rules.value_text(
+                path, len(path.events), path.outcome[1]) == 'self._value[0]' and \
+                atoms.get(('isnone', 'self._value[1]')) is True
             check.instance('A', 'Event.__await__:returns-value', ok, where_fn(aw.fn),
-                           'after the flag, the stored value is returned',
-                           path=rules.path_lines(path))
-        elif path.kind == 'raise' and path.outcome[1].cls not in (
-                'usim._core.loop.Interrupt', 'usim._primitives.task.CancelTask',
-                'usim._primitives.context.CancelScope', 'ext:GeneratorExit'):
+                           'after the flag, the stored value is returned when there is no '
+                           'stored exception', path=rules.path_lines(path))
+        elif path.kind == 'raise' and path.outcome[1].cls not in SIGNALS_:
             event = [e for e in path.events if e.kind == 'raise'][-1]
+            index = rules.event_index(path, event)
             defused = any(e.kind == 'store' and e['path'] == 'self.defused'
+                          and isinstance(e['value'], ast.Constant) and e['value'].value is True
                           for e in path.events)
-            check.instance('A', 'Event.__await__:raises-error', waited and defused,
+            stored = isinstance(event.node, ast.Raise) and event.node.exc is not None and \
+                rules.value_text(path, index, event.node.exc) == 'self._value[1]' and \
+                atoms.get(('isnone', 'self._value[1]')) is False
+            check.instance('A', 'Event.__await__:raises-error', waited and defused and stored,
                            event.where, 'after the flag, the stored exception is raised and '
                            'the event counts as defused', path=rules.path_lines(path))
-    unpack = [n for n in ast.walk(aw.fn.node) if isinstance(n, ast.Assign)
-              and ast.unparse(n.value) == 'self._value']
-    check.instance('A', 'Event.__await__:from-stored-value', len(unpack) == 1,
-                   where_fn(aw.fn), 'result and error come from `self._value`')
     # ---- P ------------------------------------------------------------------
-    tinit = an.callee(TIMEOUT, '__init__')
-    params = [a.arg for a in tinit.fn.node.args.args]
-    first = tinit.fn.node.body[0] if tinit.fn.node.body else None
-    if isinstance(first, ast.Expr) and isinstance(first.value, ast.Constant):
-        first = tinit.fn.node.body[1]
-    ok = isinstance(first, ast.If) and equal_bool(first.test, '%s < 0' % params[2]) and \
-        any(isinstance(b, ast.Raise) for b in first.body)
-    check.instance('P', 'Timeout:negative-delay-rejected-first', ok, where_fn(tinit.fn),
-                   'a negative delay raises before anything is created')
-    ttrig = an.method(TIMEOUT, '_trigger_timeout')
-    body = [ast.unparse(s) for s in ttrig.node.body]
-    check.instance('P', 'Timeout._trigger_timeout', body == [
-        'await (time + self._delay)', 'self.succeed(self._fixed_value)'], where_fn(ttrig),
-        'waits time + delay, then succeeds with the fixed value: %s' % body)
-    stores = {ast.unparse(n.targets[0]): ast.unparse(n.value)
-              for n in ast.walk(tinit.fn.node) if isinstance(n, ast.Assign)}
-    check.instance('P', 'Timeout:stores', stores.get('self._delay') == params[2] and
-                   stores.get('self._fixed_value') == params[3], where_fn(tinit.fn),
-                   'delay and value are stored unchanged')
-    scheduled = [n for n in ast.walk(tinit.fn.node) if isinstance(n, ast.Call)
-                 and ast.unparse(n.func) == '%s.schedule' % params[1]]
-    check.instance('P', 'Timeout:scheduled', len(scheduled) == 1 and ast.unparse(
-        scheduled[0].args[0]) == 'self._trigger_timeout()', where_fn(tinit.fn),
-        'the timeout activity is handed to the environment')
-    runp = an.callee(PROCESS, '_run_payload')
-    tries = [n for n in ast.walk(runp.fn.node) if isinstance(n, ast.Try)]
-    ok = False
-    if len(tries) == 1:
-        names = [ast.unparse(h.type) for h in tries[0].handlers]
-        suspends = any(isinstance(n, (ast.Await, ast.AsyncWith, ast.AsyncFor))
-                       for stmt in tries[0].body for n in ast.walk(stmt))
-        stop = tries[0].handlers[0] if names[:1] == ['StopIteration'] else None
-        succeed_ok = stop is not None and any(
-            isinstance(n, ast.Call) and ast.unparse(n.func) == 'self.succeed'
-            for n in ast.walk(stop))
-        generic = tries[0].handlers[-1]
-        fail_ok = any(isinstance(n, ast.Call) and ast.unparse(n.func) == 'self.fail'
-                      and ast.unparse(n.args[0]) == generic.name for n in ast.walk(generic))
-        ok = names == ['StopIteration', 'BaseException'] and not suspends and succeed_ok \
-            and fail_ok
-    check.instance('P', 'Process._run_payload:outcome', ok, where_fn(runp.fn),
-                   'StopIteration (before the generic handler) -> succeed(return value); any '
-                   'other exception -> fail(err); the try body cannot suspend')
-    value_def = [n for n in ast.walk(runp.fn.node) if isinstance(n, ast.Assign)
-                 and ast.unparse(n.targets[0]) == 'value']
-    check.instance('P', 'Process._run_payload:return-value', len(value_def) == 1 and
-                   ast.unparse(value_def[0].value) == 'err.args[0] if err.args else None',
-                   where_fn(runp.fn), 'the generator\'s return value is the event\'s value')
-    sends = [n for n in ast.walk(runp.fn.node) if isinstance(n, ast.Call)
-             and ast.unparse(n.func) in ('generator.send', 'generator.throw')]
-    forms = sorted(ast.unparse(n) for n in sends)
-    check.instance('P', 'Process._run_payload:resume', forms == [
-        'generator.send(None)', 'generator.send(event.value)',
-        'generator.throw(event.value)'], where_fn(runp.fn),
-        'resumed with the value of a good event, the exception of a failed one: %s' % forms)
+    _check_timeout(check, an)
+    _check_run_payload(check, an)
     interrupt = an.callee(PROCESS, 'interrupt')
     for path in an.paths(interrupt):
         for index, event in enumerate(path.events):
@@ -297,11 +603,16 @@ def run(check, an: Analysis):
             check.instance('P', 'InterruptQueue:_causes.%s' % detail, ok,
                            '%s:%d' % (fn.module.relpath, node.lineno),
                            'interrupt causes are delivered in call order')
-    iq_value = an.method(IQUEUE, 'value')
-    rets = [n for n in ast.walk(iq_value.node) if isinstance(n, ast.Return)]
-    check.instance('P', 'InterruptQueue.value', len(rets) == 1 and ast.unparse(
-        rets[0].value) == 'Interrupt(self.pop())', where_fn(iq_value),
-        'each yield receives one Interrupt(cause)')
+    iq_value = an.callee(IQUEUE, 'value')
+    ok, n = True, 0
+    for path in an.paths(iq_value):
+        if path.kind == 'return':
+            n += 1
+            value = rules.value_expr(path, len(path.events), path.outcome[1])
+            ok &= isinstance(value, ast.Call) and ast.unparse(value.func) == 'Interrupt' and \
+                [ast.unparse(a) for a in value.args] == ['self.pop()'] and not value.keywords
+    check.instance('P', 'InterruptQueue.value', ok and n > 0, where_fn(iq_value.fn),
+                   'each yield receives one Interrupt(cause) (%d return paths)' % n)
     push = an.callee(IQUEUE, 'push')
     ok = True
     for path in an.paths(push):
@@ -312,62 +623,103 @@ def run(check, an: Analysis):
             ok &= len(raised) == len(woke)
     check.instance('P', 'InterruptQueue.push:wakes', ok, where_fn(push.fn),
                    'raising the interrupt flag triggers its waiters')
-    for name, want in (('all_events', 'len(events) == count'),
-                       ('any_events', 'count or not events')):
+    from ..norm import function_predicate, equivalent_terms, bool_term
+    for name, want in (('all_events', 'len({0}) == {1}'),
+                       ('any_events', '{1} or not {0}')):
         method = an.method(CONDITION, name)
-        rets = [n for n in ast.walk(method.node) if isinstance(n, ast.Return)]
-        check.instance('P', 'Condition.%s' % name, len(rets) == 1 and
-                       equal_bool(rets[0].value, want), where_fn(method),
-                       'evaluator == `%s`' % want)
+        mparams = [a.arg for a in method.node.args.args]
+        want_text = want.format(*mparams[-2:])
+        try:
+            got = function_predicate(method.node)
+            ok = equivalent_terms(got, bool_term(ast.parse(want_text, mode='eval').body))
+        except Exception:
+            ok = False
+        check.instance('P', 'Condition.%s' % name, ok, where_fn(method),
+                       'evaluator == `%s`' % want_text)
     for cls, ev in (('usim.py.events.AllOf', 'all_events'),
                     ('usim.py.events.AnyOf', 'any_events')):
-        init = an.method(cls, '__init__')
-        check.instance('P', '%s:evaluator' % cls.rsplit('.', 1)[-1],
-                       'self.%s' % ev in ast.unparse(init.node), where_fn(init),
-                       'uses %s' % ev)
-    chk = an.method(CONDITION, '_check_events')
-    waits = [n for n in ast.walk(chk.node) if isinstance(n, ast.Await)]
-    ok = len(waits) == 1 and ast.unparse(waits[0].value).replace(' ', '') == \
-        'AnyFlag(*(event.__usimpy_flag__foreventinunobserved))'
-    check.instance('P', 'Condition._check_events:waits-any-unobserved', ok, where_fn(chk),
-                   'waits until any not yet observed member fires')
-    succ = [n for n in ast.walk(chk.node) if isinstance(n, ast.Call)
-            and ast.unparse(n.func) == 'self.succeed']
-    check.instance('P', 'Condition._check_events:value', len(succ) == 1 and ast.unparse(
-        succ[0].args[0]) == 'ConditionValue(*self._flatten_values(self._events))',
-        where_fn(chk), 'fires with exactly the members that fired by then (flattened)')
-    fails = [n for n in ast.walk(chk.node) if isinstance(n, ast.Call)
-             and ast.unparse(n.func) == 'self.fail']
-    check.instance('P', 'Condition._check_events:failure', len(fails) == 2 and all(
-        ast.unparse(f.args[0]) == 'event.value' for f in fails), where_fn(chk),
-        'a failed member fails the condition with its exception')
+        init = an.callee(cls, '__init__')
+        iparams = [a.arg for a in init.fn.node.args.args]
+        ok, n = True, 0
+        for path in an.paths(init):
+            for index, event in enumerate(path.events):
+                if event.kind in ('call', 'enter') and event.depth == 0 and \
+                        is_call_to(event, '__init__', CONDITION):
+                    n += 1
+                    cparams = [a.arg for a in an.method(CONDITION, '__init__').node.args.args]
+                    bound = dict(zip(cparams[1:], event.node.args))
+                    bound.update({kw.arg: kw.value for kw in event.node.keywords})
+                    texts = {k: rules.value_text(path, index, v) for k, v in bound.items()}
+                    ok &= texts.get(cparams[2], '').split('.')[-1] == ev and \
+                        texts.get(cparams[1]) == iparams[1] and \
+                        texts.get(cparams[3]) == iparams[2]
+        check.instance('P', '%s:evaluator' % cls.rsplit('.', 1)[-1], ok and n > 0,
+                       where_fn(init.fn), 'Condition(env, %s, events)' % ev)
+    _check_condition_events(check, an)
     # ---- U ------------------------------------------------------------------
+    from .c16 import asserted
     until = an.callee(ENV, 'until')
     upaths = an.paths(until)
+    uparam = until.fn.node.args.args[1].arg
+    in_past = ast.parse('%s < time.now' % uparam, mode='eval').body
+
+    def past_test(path, stop, value):
+        want = asserted(in_past, value)
+        return any(e.kind == 'test' and e.depth == 0 and asserted(rules.value_expr(
+            path, i, e.node, keep_clock=False), e['value']) == want
+            for i, e in enumerate(path.events[:stop]))
     past = [p for p in upaths if p.kind == 'raise' and p.outcome[1].cls == 'ext:ValueError']
-    ok = bool(past) and all(any(e.kind == 'test' and isinstance(e.node, ast.Compare)
-                                and isinstance(e.node.ops[0], ast.Lt)
-                                and ast.unparse(e.node.left) == 'until'
-                                and rules.is_current_time(e.node.comparators[0], until.fn)
-                                and e['value'] is True for e in p.events) for p in past)
+    ok = bool(past) and all(
+        past_test(p, len(p.events), True) and not any(
+            e.kind == 'susp' and e['how'] == 'await' and e.depth == 0 for e in p.events)
+        for p in past)
     check.instance('U', 'until:past-rejected', ok, where_fn(until.fn),
-                   '`until < now` raises ValueError')
-    waits = {}
+                   '`until < now` raises ValueError before anything is waited for '
+                   '(%d paths)' % len(past), analysed=len(past))
+    wait_ok, stop_ok, kinds, n_wait, bad = True, True, set(), 0, None
+    absorbed = 0
     for path in upaths:
-        for event in path.events:
-            if event.kind == 'susp' and event['how'] == 'await' and event.depth == 0:
-                waits[ast.unparse(event['expr'])] = True
-    check.instance('U', 'until:waits', set(waits) == {'until.__usimpy_flag__',
-                                                      'time >= until'}, where_fn(until.fn),
-                   'waits for the event\'s flag or for time >= until: %s' % sorted(waits))
-    stops = [n for n in ast.walk(until.fn.node) if isinstance(n, ast.Raise)
-             and n.exc is not None and ast.unparse(n.exc) == 'StopSimulation']
-    handlers = [ast.unparse(h.type) for n in ast.walk(until.fn.node)
-                if isinstance(n, ast.Try) for h in n.handlers]
-    check.instance('U', 'until:stop-absorbed', len(stops) == 1 and
-                   'StopSimulation' in handlers, where_fn(until.fn),
-                   'StopSimulation ends the environment\'s scope and is absorbed: %s'
-                   % handlers)
+        for index, event in enumerate(path.events):
+            if not (event.kind == 'susp' and event['how'] == 'await' and event.depth == 0):
+                continue
+            n_wait += 1
+            atoms = rules.path_atoms(path, 0, index)
+            expr = rules.value_expr(path, index, event['expr'])
+            is_event = atoms.get(('truth', 'isinstance(%s, Event)' % uparam))
+            good = atoms.get(('isnone', uparam)) is False
+            if is_event is True:
+                kinds.add('event')
+                good &= ast.unparse(expr) == '%s.__usimpy_flag__' % uparam
+            elif is_event is False:
+                kinds.add('time')
+                good &= isinstance(expr, ast.Compare) and len(expr.ops) == 1 and (
+                    (isinstance(expr.ops[0], ast.GtE) and ast.unparse(expr.left) == 'time'
+                     and ast.unparse(expr.comparators[0]) == uparam) or
+                    (isinstance(expr.ops[0], ast.LtE) and ast.unparse(expr.left) == uparam
+                     and ast.unparse(expr.comparators[0]) == 'time'))
+                good &= past_test(path, index, False)
+            else:
+                good = False
+            if not good:
+                wait_ok, bad = False, bad or (path, index)
+            if event['exit'] == 'normal':
+                # the wait is over: the simulation of this environment is stopped
+                rest = [e for e in path.events[index + 1:] if e.depth == 0]
+                stopped = bool(rest) and rest[0].kind == 'raise' and rest[0]['exc'] == STOP
+                left = [e for e in rest[1:] if e.kind == 'susp' and e['how'] == 'aexit']
+                # unless the scope fails for another reason, the stop is absorbed
+                if not stopped or (left and left[0]['exit'] == 'normal'
+                                   and not path.normal):
+                    stop_ok, bad = False, bad or (path, index)
+                absorbed += stopped and path.normal
+    check.instance('U', 'until:waits', wait_ok and kinds == {'event', 'time'},
+                   where_fn(until.fn), 'waits for the event\'s flag, or for time >= until '
+                   'after the past was rejected (%d waits on paths)' % n_wait,
+                   path=rules.path_lines(*bad) if bad and not wait_ok else None,
+                   analysed=n_wait)
+    check.instance('U', 'until:stop-absorbed', stop_ok and absorbed > 0, where_fn(until.fn),
+                   'after the wait StopSimulation ends the environment\'s scope and is '
+                   'absorbed', path=rules.path_lines(*bad) if bad and not stop_ok else None)
     supp = an.method(ENVSCOPE, '_is_suppressed')
     expr = [n for n in ast.walk(supp.node) if isinstance(n, ast.Return)]
     param = supp.node.args.args[1].arg
@@ -386,7 +738,8 @@ def run(check, an: Analysis):
             kinds['inside'] = path.kind == 'raise' and path.outcome[1].cls.endswith(
                 'NotCompatibleError')
         elif path.kind == 'return':
-            kinds['returns'] = ast.unparse(path.outcome[1]) == 'until.value' and any(
+            kinds['returns'] = rules.value_text(
+                path, len(path.events), path.outcome[1]) == 'until.value' and any(
                 is_call_to(e, 'run') or (e.kind == 'call' and isinstance(e.node, ast.Call)
                                          and ast.unparse(e.node.func) == 'usim_run')
                 for e in path.events)
